@@ -1,23 +1,36 @@
 """C09 configuration for ./check (see checks/propcfg.py for the keys)."""
 CFG = {
     "modules": ["VaxisModel.Props.C09", "VaxisModel.Props.C09Body", "VaxisModel.Props.C09Uni", "VaxisModel.Witness.F209", "VaxisModel.Witness.F210"],
-    "extractors": ["C09"],
+    "extractors": ["C09"],  # Gen/Keys.lean, Gen/Mouse.lean, Gen/KeyBody.lean
     "drivers": ["C09"],
     "trivial_prefix": (),
     "rule": "e2e: every 3rd (quick) / 4th (thorough) dec case injected into a real Vaxis on the fake console, Key read from Events(); dec: every printable ASCII byte, other scripts, raw bytes 0x80-0xFF, all C0, ESC+byte, SS3+byte, CSI reports over a "
             "number grid (0-40, 32-127, 57340-57460, other scripts) x finals x 15 field combinations x modifier masks (sampled quick / "
             "all 256 thorough), parameterless CSI, 27;m;k~, raw CSI fuzz incl. 2^31+ parameters; mat: chord sample x related binding "
             "runes x all 256 masks (+ a 9-bit mask); mstr/str: own String(), case/ordering variants, random binding strings, every "
-            "Key* constant x masks; xp: every chord the xterm legacy encoder expresses x kitty forms x bindings. Distinct by op line.",
+            "Key* constant x masks; xp: every chord the xterm legacy encoder expresses x kitty forms x bindings. "
+            "hypa/hyp: hypotheses of self_match / cross_protocol_char_* evaluated on Go's unicode tables; xpu: character keys of other scripts "
+            "(fixed awkward list, all 27 title-case targets, 25/830 lower-without-upper, 60/3000 random) under legacy vs kitty on the real code. "
+            "Every line also runs the bodies extracted from key.go on this run (Gen/KeyBody.lean, interpreted) against the hand model. Distinct by op line.",
     "trusted_base": ["unicode.IsUpper/IsLower/IsLetter/IsGraphic/IsPrint/ToUpper/ToLower and simple case folding are parameters of the "
                      "model (structure Uni); theorems hold for all such functions; the harness passes Go's values per case",
-                     "byte level <-> parsed sequence is the ansi parser (C02); the harness uses the real parser"],
-    "level_text": "Key decoding/matching: all Props/C09 theorems proved for all inputs over the model of key.go tied to the source by "
-                  "Gen/Keys.lean (tables, constants, labels; regenerated) and by correspondence of decodeKey/Matches/MatchString/String.",
+                     "byte level <-> parsed sequence is the ansi parser (C02); the harness uses the real parser",
+                     "the Go-body interpreter Model/GoInterp.lean (meaning of the extracted statement language) and the go/ast translator "
+                     "extract/cmd/C09/gobody - validated against the implementation on every case"],
+    "level_text": "Key decoding/matching: all Props/C09* theorems proved for all inputs over the model of key.go tied to the source by "
+                  "Gen/Keys.lean (tables, constants, labels; regenerated), Gen/KeyBody.lean (the four function bodies as decision-structure terms; "
+                  "regenerated, interpreted) and by correspondence of decodeKey/Matches/MatchString/String.",
     "level_note": "Proved for all masks/keys/unicode tables: match_strong_mods, locks_irrelevant, shift_forgiveness, decode_exact_*, "
-                  "self_match (every pressed chord, table parts by kernel decide), cross_protocol. Validated by correspondence only: the hand-transcribed "
-                  "bodies of decodeKey/Matches/MatchString/String (0 mismatches required). Modelled not verified: unicode tables, parser.",
+                  "self_match (every pressed chord, table parts by kernel decide), cross_protocol (ASCII table) and cross_protocol_char_* "
+                  "(character keys of any script, every Uni meeting explicit hypotheses, checked at run time on Go's tables), decode_csi_total "
+                  "(every CSI parameter list over Z). Body tie: matches_body_eq_model (the interpreted body of Key.Matches extracted this run = "
+                  "the hand model, all inputs); MatchString/String/decodeKey: extracted bodies fully recognised, pinned syntactically "
+                  "(facts_*_body) and run against the hand model and the implementation on every case (0 differences required) - no "
+                  "all-inputs body theorem yet for these three. Known findings F209, F210 (cross-protocol differences for runes outside the "
+                  "hypotheses; witnesses in Witness/). Modelled not verified: unicode tables, parser.",
     "assumptions": ["binding strings and Key.Text are valid UTF-8 (modelled as code-point lists)",
-                    "ModifierMask values are non-negative (decodeKey clamps)"],
+                    "ModifierMask values are non-negative (decodeKey clamps)",
+                    "Go int modelled as Z: exact except a modifier/event CSI parameter of exactly -2^63 (int64 wrap of pm[0]-1; only reachable "
+                    "through the parser's own int64 overflow of a 19-digit parameter)"],
     "timeout": 900,
 }
